@@ -12,6 +12,7 @@ func (g *gen) funcDef(fc *fctx, nparams int, rets []retT, canYield bool, coID in
 	oldEst, oldMult := g.est, g.mult
 	g.est, g.mult = 0, 1
 	g.push()
+	g.nloc = nparams
 	for i := 0; i < nparams; i++ {
 		p := g.fresh("p")
 		fd.Params = append(fd.Params, p)
@@ -618,12 +619,22 @@ func (g *gen) coBody(fc *fctx) (string, *fnSig, []Stmt) {
 	oldEst, oldMult := g.est, g.mult
 	g.est, g.mult = 0, 1
 	g.push()
+	g.nloc = np
 	for i := 0; i < np; i++ {
 		p := g.fresh("p")
 		fd.Params = append(fd.Params, p)
 		g.declare(&varInfo{name: p, k: kAny, fnLevel: fc2.level})
 	}
 	body := pre(fc2)
+	if g.feat("nested_yield") && g.ch(3) == 0 {
+		// a helper that yields from one call level deeper
+		g.use("nested_yield")
+		hn := g.fresh("yh")
+		hfd, hsig := g.funcDef(fc2, 1, []retT{{k: kAny}}, true, id, false, g.ch(2), func(fc3 *fctx) []Stmt { return g.yieldStmt(fc3) }, fc2.protected)
+		hsig.yields = true
+		g.declare(&varInfo{name: hn, k: kFn, sig: hsig, fnLevel: fc2.level})
+		body = append(body, &Local{Names: []string{hn}, Exprs: []Expr{Func{hfd}}})
+	}
 	ny := 1 + g.ch(3)
 	for y := 0; y < ny; y++ {
 		body = append(body, g.stmtsIn(g.ch(3), fc2)...)
@@ -635,7 +646,13 @@ func (g *gen) coBody(fc *fctx) (string, *fnSig, []Stmt) {
 	for i := 0; i < nr; i++ {
 		rets = append(rets, g.numExpr(0))
 	}
-	body = append(body, &Return{Exprs: rets})
+	if g.feat("tail_yield") && g.ch(4) == 0 {
+		// `return coroutine.yield(...)`: the next resume's values become the body's results
+		g.use("tail_yield")
+		body = append(body, &ReturnCall{Fn: Var{"coyield"}, Args: rets})
+	} else {
+		body = append(body, &Return{Exprs: rets})
+	}
 	g.pop()
 	cost := g.est + 5
 	g.est, g.mult = oldEst, oldMult
@@ -759,8 +776,11 @@ func Generate(t Tape, p *Profile) *Program {
 	g.declare(&varInfo{name: "v0", k: kNum})
 	g.declare(&varInfo{name: "s0", k: kStr})
 	body = append(body, &Local{Names: []string{"v0", "s0"}, Exprs: []Expr{Num{float64(t.Choose(5))}, Str{"s"}}})
+	g.nloc = 60 // prelude and padding locals of the chunk
 	for i := 0; i < n && !g.tight(); i++ {
-		body = append(body, g.stmt(fc)...)
+		ss := g.stmt(fc)
+		g.nloc += countLocals(ss)
+		body = append(body, ss...)
 	}
 	if p.Epilogue {
 		body = append(body, g.epilogue(fc)...)
@@ -816,4 +836,40 @@ func (g *gen) epilogue(fc *fctx) []Stmt {
 		out = append(out, g.resumeStmts(fc, c)...)
 	}
 	return out
+}
+
+
+// GenerateBodies draws a program that defines n global coroutine body
+// functions B1..Bn (and whatever shared state they capture); a host-side
+// scheduler then drives coroutines over them.
+func GenerateBodies(t Tape, p *Profile, n int) (*Program, []string) {
+	g := &gen{t: t, p: p, prog: &Program{Features: map[string]int{}}, mult: 1, on: map[string]bool{}}
+	for _, f := range allFeatures {
+		on := t.Choose(4) != 0
+		if p.Allow[f] && !p.Disabled[f] && on {
+			g.on[f] = true
+		}
+	}
+	g.on["coroutine"] = true
+	g.push()
+	fc := &fctx{}
+	var body []Stmt
+	g.declare(&varInfo{name: "v0", k: kNum})
+	g.declare(&varInfo{name: "s0", k: kStr})
+	body = append(body, &Local{Names: []string{"v0", "s0"}, Exprs: []Expr{Num{float64(t.Choose(5))}, Str{"s"}}})
+	for i := 0; i < t.Choose(4); i++ {
+		body = append(body, g.sDecl(fc)...)
+	}
+	var names []string
+	for i := 0; i < n; i++ {
+		name, _, st := g.coBody(fc)
+		body = append(body, st...)
+		gn := fmt.Sprintf("B%d", i+1)
+		body = append(body, &Assign{Targets: []Expr{Var{gn}}, Exprs: []Expr{Var{name}}})
+		names = append(names, gn)
+	}
+	g.pop()
+	g.prog.Body = body
+	g.prog.NStmts = g.stmts
+	return g.prog, names
 }
